@@ -594,6 +594,8 @@ pub struct AFacts {
     pub diffs_in: u64,
     pub diffs_out: u64,
     pub resets_in: u64,
+    /// Resets delivered by the source stream although at most `capacity` messages were waiting
+    pub resets_without_lag: u64,
     pub quiescent_checks: u64,
     pub param_changes: u64,
     pub param_consumed: u64,
@@ -642,6 +644,8 @@ struct Oracle<'a> {
     match_state: Vec<usize>,
     match_param: Vec<usize>,
     boundaries: Vec<Vec<u32>>,
+    /// upper bound of the messages published since the source stream last answered Pending
+    msgs_upper: u64,
     match_boundary: usize,
     cursor: usize,
     src_alive: bool,
@@ -747,6 +751,10 @@ impl<'a> Oracle<'a> {
                 EvK::Pending => {
                     self.idle[e.tap] = true;
                     self.polled_now[e.tap] = true;
+                    if e.tap == 0 {
+                        // the source stream has caught up
+                        self.msgs_upper = 0;
+                    }
                 }
                 EvK::End => {
                     let k = e.tap;
@@ -800,7 +808,14 @@ impl<'a> Oracle<'a> {
                             self.facts.kinds_in.insert(d.kind());
                             if matches!(d, D::Reset(_)) {
                                 self.facts.resets_in += 1;
-                                self.facts.lagged = true;
+                                // a Reset is the repair of a lag only if more than `capacity` messages can have
+                                // been waiting (upper bound of what was published since the source stream last
+                                // answered Pending); otherwise the stream is not lagging by the harness's count
+                                if self.msgs_upper > self.h.capacity as u64 {
+                                    self.facts.lagged = true;
+                                } else {
+                                    self.facts.resets_without_lag += 1;
+                                }
                             }
                         }
                     }
@@ -1171,6 +1186,7 @@ fn run_inner(h: &AdpHistory, prop: &str, known: &Known) -> Result<AFacts, Div> {
         match_state: vec![0; n + 1],
         match_param: vec![0; n + 1],
         boundaries: vec![vals(&contents0)],
+        msgs_upper: 0,
         match_boundary: 0,
         cursor: 0,
         src_alive: true,
@@ -1346,6 +1362,7 @@ fn run_inner(h: &AdpHistory, prop: &str, known: &Known) -> Result<AFacts, Div> {
             AOp::Src(vop) => {
                 let Some(obr) = ob.as_mut() else { continue };
                 exec_src(obr, vop);
+                o.msgs_upper += vop.max_messages();
                 apply_model(&mut model, vop);
                 let c = vals(&contents(obr));
                 if c != model {
